@@ -165,3 +165,37 @@ pub fn c15_delta_null() {
     kani::cover!(true);
     std::mem::forget(g);
 }
+
+/// quick complement to c15_init_is_sum: the real init() on CONCRETE placements equals the sum of the contributions of the men standing there
+pub fn init_on_placement(pcs: [[u64; 6]; 2]) {
+    load();
+    let p = BPos { pcs, white_to_move: true, rights: [[false; 2]; 2], ep: 64 };
+    #[cfg(test)] println!("REPLAY-CASE {{\"fen\":\"{}\"}}", pos::fen_of(&p));
+    let g = pos::game_of(&p);
+    let got = IncrementalEvalFields::init(&g.board);
+    let mut ph = 0i16;
+    let mut v = PhasedEval::ZERO;
+    let mut c = 0;
+    while c < 2 {
+        let mut k = 0;
+        while k < 6 {
+            let mut sq = 0u8;
+            while sq < 64 {
+                if p.pcs[c][k] & (1u64 << sq) != 0 {
+                    let pc = crate::chess::piece::Piece::new(pos::player_of(c), pos::kind_of(k));
+                    ph += ea::piece_phase_value_contribution(pc.kind);
+                    v += piece_square_tables::piece_contributions(Square::from_index(sq), pc);
+                }
+                sq += 1;
+            }
+            k += 1;
+        }
+        c += 1;
+    }
+    assert!(got.phase_value == ph && got.piece_square_tables == v);
+    // the statement's game phase: 1 per minor, 2 per rook, 4 per queen
+    let cnt = |k: usize| (p.pcs[0][k] | p.pcs[1][k]).count_ones() as i16;
+    assert!(ph == cnt(1) + cnt(2) + 2 * cnt(3) + 4 * cnt(4));
+    kani::cover!(true);
+    std::mem::forget(g);
+}
